@@ -68,6 +68,28 @@ def site(rel, cls):
     return "\n".join(body + ["  (gradSample, summedGrad)"]), z.inner == 1
 
 
+def init_effect():
+    """`DPOptimizer.__init__`: the protocol state a NEW optimizer starts from – `self._step_skip_queue = []`, `self._is_last_step_skipped = False`
+    and, for every parameter, `p.summed_grad = None` (unconditionally: an accumulator left behind by an earlier optimizer on the same
+    parameters must not be inherited).  Anything else about these three (a guard, another value) is outside the subset."""
+    fn = find_function(ast.parse((Path(core.REPO) / SITES[0][0]).read_text()), "__init__", cls="DPOptimizer")
+    queue = skipped = summed = None
+    for s in fn.body:
+        u = ast.unparse(s)
+        if u.startswith("self._step_skip_queue ="):
+            queue = u in ("self._step_skip_queue = []", "self._step_skip_queue = list()")
+        elif u.startswith("self._is_last_step_skipped ="):
+            skipped = u == "self._is_last_step_skipped = False"
+        elif "summed_grad" in u:
+            ok = isinstance(s, ast.For) and ast.unparse(s.target) == "p" and ast.unparse(s.iter) in ("self.params", "params") and not s.orelse \
+                and [ast.unparse(b) for b in s.body if not (isinstance(b, ast.Expr) and isinstance(b.value, ast.Constant))] == ["p.summed_grad = None"]
+            summed = ok if summed is None else False
+    if not (queue and skipped and summed):
+        raise Untranslatable(f"DPOptimizer.__init__: fresh skip queue {queue}, cleared skip marker {skipped}, unconditional `p.summed_grad = None` for every parameter {summed}")
+    return ["/-- `DPOptimizer.__init__`: the protocol state a new optimizer starts from (whatever an earlier optimizer left on the parameters) -/",
+            "def initSummed {β : Type} (left : Option β) : Option β := none", "def initQueue : List Bool := []", "def initLastSkipped : Bool := false", ""]
+
+
 def translate():
     out = ["/-! GENERATED by vharness/props/c11_trans.py from DPOptimizer.zero_grad / DPOptimizerFastGradientClipping.zero_grad – do not edit. -/",
            "set_option linter.unusedVariables false", "namespace Opacus.Generated.ZeroGrad", ""]
@@ -76,6 +98,7 @@ def translate():
         out += [f"/-- `{cls}.zero_grad`: one parameter's `(grad_sample, summed_grad)` afterwards (`[]` / `none` = `None`) -/",
                 f"def {name} {{α β : Type}} (lastSkipped : Bool) (gradSample : List α) (summedGrad : Option β) : List α × Option β :=",
                 body, f"def {name}CallsInner : Bool := {'true' if inner else 'false'}", ""]
+    out += init_effect()
     out.append("end Opacus.Generated.ZeroGrad")
     return "\n".join(out) + "\n"
 
